@@ -132,11 +132,22 @@ M = [
  ("c19-U-callsign-needs-cat", ["C19", "C07", "C11"], "src/decoder/plane/from_squitter/from_ext.rs", "        self.ais = decoder::ais(message);\n        self.category = (message_type, message_subtype);", "        if message_subtype != 0 {\n            self.ais = decoder::ais(message);\n        }\n        self.category = (message_type, message_subtype);"),
  ("c19-update-interval-drops", ["C19"], "src/reader.rs", "        if !display_flags.quiet() && app_state.is_time_to_refresh(&now, args.update) {", "        if args.update == 0 && df == 4 {\n            planes.aircrafts.write().unwrap().remove(&icao);\n        }\n        if !display_flags.quiet() && app_state.is_time_to_refresh(&now, args.update) {"),
  ("c19-U-vrate-sign", ["C19", "C09"], "src/decoder/plane/from_squitter/from_ext.rs", "        self.vrate = decoder::vertical_rate(message);\n        self.vrate_source = ' ';", "        self.vrate = decoder::vertical_rate(message).map(|v| if v == -64 { 64 } else { v });\n        self.vrate_source = ' ';"),
+ ("c18-break-on-read-error", ["C18"], "src/reader.rs", "                if let Err(e) = read_lines(reader, &args, planes) {\n                    error!(\"Error during reading: {}\", e);\n                    sleep(Duration::from_secs(5));\n                }", "                if let Err(e) = read_lines(reader, &args, planes) {\n                    error!(\"Error during reading: {}\", e);\n                    sleep(Duration::from_secs(5));\n                }\n                break Ok(());"),
+ ("c18-return-on-refused", ["C18"], "src/reader.rs", "            Err(e) => {\n                error!(\"Failed to connect to {}: {}\", &args.tcp, e);\n                sleep(Duration::from_secs(5));", "            Err(e) => {\n                error!(\"Failed to connect to {}: {}\", &args.tcp, e);\n                return Err(e);"),
+ ("c18-new-planes-per-connection", ["C18"], "src/reader.rs", "                let reader = BufReader::new(stream);\n                if let Err(e) = read_lines(reader, &args, planes) {", "                let reader = BufReader::new(stream);\n                *planes = Planes::new();\n                if let Err(e) = read_lines(reader, &args, planes) {"),
+ ("c18-no-sleep", ["C18"], "src/reader.rs", "                error!(\"Failed to connect to {}: {}\", &args.tcp, e);\n                sleep(Duration::from_secs(5));", "                error!(\"Failed to connect to {}: {}\", &args.tcp, e);\n                sleep(Duration::from_millis(5));"),
+ ("c18-lines-utf8-strict", ["C18", "C13"], "src/reader.rs", "    for line in reader.split(b'\\n').map_while(Result::ok) {\n        let line = String::from_utf8_lossy(&line);", "    for line in reader.lines().map_while(Result::ok) {"),
+ ("c18-giveup-after-3", ["C18"], "src/reader.rs", "fn connect_and_read_tcp(args: Arc<Args>, planes: &mut Planes) -> Result<()> {\n    loop {", "fn connect_and_read_tcp(args: Arc<Args>, planes: &mut Planes) -> Result<()> {\n    for _ in 0..3 {"),
 ]
 # mutants needing a second edit
+EXTRA0 = {
+ "c18-giveup-after-3": ("src/reader.rs", "                sleep(Duration::from_secs(5));\n            }\n        }\n    }\n}", "                sleep(Duration::from_secs(5));\n            }\n        }\n    }\n    Ok(())\n}"),
+}
 EXTRA = {
  "c13-three-rejects": ("src/reader.rs", "    let mut app_state = AppCounters::from_update_interval(args.update);", "    let mut app_state = AppCounters::from_update_interval(args.update);\n    let mut rejects = 0;"),
 }
+
+EXTRA.update(EXTRA0)
 
 def sh(cmd, **kw):
     return subprocess.run(cmd, shell=True, capture_output=True, text=True, **kw)
